@@ -482,6 +482,14 @@ class Run(object):
                                 a = op["a"]
                                 val = run.svars[a].get() if a < 100 else getattr(run.attrobj, "a%d" % (a - 100))
                                 run.emit("Read", t=t, a=a, v=run.enc(val))
+                            elif o == "set":
+                                # a plain assignment to the scoped value / attribute (inside an override of it)
+                                a = op["a"]
+                                if a < 100:
+                                    run.svars[a].set(op["v"])
+                                else:
+                                    setattr(run.attrobj, "a%d" % (a - 100), op["v"])
+                                run.emit("Set", t=t, a=a, b=op["v"])
                             elif o == "sync":
                                 val = run.sync_call(t, op["a"])
                                 recvs.append(val)
